@@ -181,7 +181,7 @@ def actual_sig(doc):
         return "unreadable:" + type(e).__name__
 
 
-def _run(graph, prog, schedule, workdir):
+def _run(graph, prog, schedule, workdir, variant="terminology"):
     """one execution under `schedule` (list of thread ids; where it gives no usable choice the
     running thread continues, else the lowest enabled one).  Returns a dict."""
     global S, URLKEY
@@ -198,12 +198,27 @@ def _run(graph, prog, schedule, workdir):
     T.load = T.terminologies.load
     T.deferred_load = T.terminologies.deferred_load
     T.refresh = T.terminologies.refresh
+    api = T
+    if variant == "template":
+        # the caller talks to a TemplateHandler (its own tables); includes inside the templates still go
+        # through the terminology loader
+        import odml.templates as TP
+        TP.threading = types.SimpleNamespace(Thread=CThread)
+        class TTable(TDict):
+            tag = "tloading"
+        class THandler(TP.TemplateHandler):
+            tag = "tloaded"
+            __contains__ = TDict.__contains__
+            __getitem__ = TDict.__getitem__
+            __setitem__ = TDict.__setitem__
+        TP.TemplateHandler.loading = TTable()
+        api = THandler()
     results = []
 
     def main():
         for op, x in PROGS[prog]:
             try:
-                r = getattr(T, op)(urls[x])
+                r = getattr(api, op)(urls[x])
                 results.append({"op": op, "url": x, "res": "ok", "sig": actual_sig(r) if op == "load" else "-",
                                 "obj": "none" if r is None else "o%d" % id(r)})
             except BaseException as e:
@@ -249,8 +264,8 @@ def _run(graph, prog, schedule, workdir):
             "cached": sorted(cached), "steps": i}
 
 
-def run(graph, prog, schedule, workdir):
-    r = _run(graph, prog, schedule, workdir)
+def run(graph, prog, schedule, workdir, variant="terminology"):
+    r = _run(graph, prog, schedule, workdir, variant)
     from .loader import errname
     r["errs"] = {str(t): errname(th["exc"]) for t, th in S.threads.items()}
     for x in r["results"]:
